@@ -75,7 +75,8 @@ def get_widths(seq: Iterable[object]) -> Dict[Union[str, int], float]:
             if len(r) == 3:
                 (char1, char2, w) = r
                 if isinstance(char1, int) and isinstance(char2, int):
-                    for i in range(cast(int, char1), cast(int, char2) + 1):
+                    # CIDs are 16 bit, which also bounds the work per range
+                    for i in range(max(char1, 0), min(char2, 0xFFFF) + 1):
                         widths[i] = w
                 else:
                     log.warning(
@@ -107,7 +108,8 @@ def get_widths2(seq: Iterable[object]) -> Dict[int, Tuple[float, Point]]:
             if len(r) == 5:
                 (char1, char2, w, vx, vy) = r
                 if isinstance(char1, int) and isinstance(char2, int):
-                    for i in range(char1, char2 + 1):
+                    # CIDs are 16 bit, which also bounds the work per range
+                    for i in range(max(char1, 0), min(char2, 0xFFFF) + 1):
                         widths[i] = (w, (vx, vy))
                 r = []
     return widths
